@@ -323,6 +323,50 @@ fn main() {
             if o.stdout != reference.stdout || o.status != reference.status { ctx.violation("stdout_depends_on_cwd", format!("{} [start directory removed]", args.join(" ")), json!({"kind":"cwd-gone","args":args}), format!("from /: exit {} {:?}; from a removed directory: exit {} {:?} {:?}", reference.status, truncate(&reference.stdout_str(), 100), o.status, truncate(&o.stdout_str(), 100), truncate(&o.stderr_str(), 120))); }
         }
     }
+    // how and when the bytes of stdin arrive: the same document delivered at once, after a silence of 0.7 / 2.5 / 6 s (a slow upstream stage
+    // of `zerv ... | zerv ...`), in 1-byte / 64-byte pieces with pauses, with a long pause after the first piece, and with the pipe kept open
+    // after the last byte. Output and status must be those of immediate delivery (the time of delivery is not an input).
+    {
+        use proc::Delivery; use std::time::Duration as D;
+        let ms = D::from_millis;
+        let deliveries: Vec<(&str, Delivery)> = vec![
+            ("silent 0.7 s", Delivery { first_delay: ms(700), ..Default::default() }),
+            ("silent 2.5 s", Delivery { first_delay: ms(2500), ..Default::default() }),
+            ("silent 6 s", Delivery { first_delay: ms(6000), ..Default::default() }),
+            ("1-byte pieces, 2 ms apart", Delivery { chunk: 1, gap: ms(2), ..Default::default() }),
+            ("64-byte pieces, 300 ms apart", Delivery { chunk: 64, gap: ms(300), ..Default::default() }),
+            ("first byte at once, the rest after 2.5 s", Delivery { head: 1, head_gap: ms(2500), ..Default::default() }),
+            ("pipe kept open 2.5 s after the last byte", Delivery { close_delay: ms(2500), ..Default::default() }),
+        ];
+        let dir0 = repos[0].1.dir.to_string_lossy().to_string();
+        let plain = root.join("plain-dir"); let _ = std::fs::create_dir_all(&plain);
+        let mut djobs: Vec<(Vec<String>, String, PathBuf)> = vec![];
+        for fmt in ["semver", "zerv"] { djobs.push((a(&["version", "--source", "stdin", "--output-format", fmt]), doc.clone(), plain.clone())); }
+        // no --source: zerv decides from the presence of stdin content; started inside a repository and outside one
+        djobs.push((a(&["version", "--output-format", "semver"]), doc.clone(), PathBuf::from(&dir0)));
+        djobs.push((a(&["version", "--output-format", "semver"]), doc.clone(), plain.clone()));
+        djobs.push((a(&["version", "-C", &dir0, "--output-format", "pep440"]), doc.clone(), PathBuf::from("/")));
+        djobs.push((a(&["flow", "--source", "stdin", "--output-format", "semver"]), doc.clone(), plain.clone()));
+        djobs.push((a(&["version", "--source", "stdin", "--output-template", "{{ major }}.{{ bumped_branch }}"]), doc.clone(), plain.clone()));
+        // sub-commands that do not use stdin at all
+        djobs.push((a(&["check", "1.2.3"]), "9.9.9\n".to_string(), plain.clone()));
+        djobs.push((a(&["render", "1.2.3-rc.1", "--output-format", "pep440"]), "9.9.9\n".to_string(), plain.clone()));
+        djobs.push((a(&["version", "-C", &dir0, "--source", "git"]), "not a document\n".to_string(), PathBuf::from("/")));
+        let work: Vec<(usize, usize)> = (0..djobs.len()).flat_map(|j| (0..deliveries.len()).map(move |d| (j, d))).collect();
+        let refs: Vec<proc::Out> = djobs.iter().map(|(args, stdin, cwd)| zv::run_bin(args, Some(stdin), &[], Some(cwd))).collect();
+        let pool = rayon::ThreadPoolBuilder::new().num_threads(work.len().min(96)).build().unwrap_or_else(|e| machinery_error(&format!("thread pool: {e}")));
+        let st_d = pool.install(|| work.par_iter().map(|&(j, di)| {
+            let mut st = Stats::default();
+            let (args, stdin, cwd) = &djobs[j];
+            let (dname, d) = deliveries[di];
+            let o = zv::run_bin_delivery(args, Some(stdin), &[], Some(cwd), &d);
+            st.inc("process_runs"); st.inc("stdin_delivery_cases");
+            let r = &refs[j];
+            if o.stdout != r.stdout || o.status != r.status { ctx.violation("output_depends_on_stdin_delivery", format!("{} [stdin delivery: {dname}]", args.join(" ")), json!({"kind":"stdin-delivery","args":args,"delivery":dname}), format!("delivered at once: exit {} {:?}; {dname}: exit {} {:?} {:?}", r.status, truncate(&r.stdout_str(), 120), o.status, truncate(&o.stdout_str(), 120), truncate(&o.stderr_str(), 160))); }
+            st
+        }).reduce(Stats::default, Stats::merge));
+        s2 = s2.merge(st_d); s2.add("process_runs", refs.len() as u64);
+    }
     for (_, r) in repos { r.remove(); }
     let _ = std::fs::remove_dir_all(&root);
     let all = st.merge(s2);
